@@ -56,7 +56,9 @@ class ProducerFace:
         self.running = False
 
 
-def run_real(answer, prefix, kw, nack_form=150):
+def run_real(answer, prefix, kw, nack_form=150, vlat=None):
+    """vlat: None (the validator answers at once) or a function (name components, negative verdict?) -> seconds the
+    caller's validator takes before it gives its verdict (virtual time), e.g. a validator that fetches a certificate."""
     from ndn.app import NDNApp
     from ndn.app_support.segment_fetcher import segment_fetcher
     from ndn import types as T
@@ -66,11 +68,16 @@ def run_real(answer, prefix, kw, nack_form=150):
     trace = []
     face = ProducerFace(loop, answer, trace, nack_form)
     face.nack_reason_got = None
+    face.vlog = []                   # (name, negative verdict?) per invocation of the caller's validator
     app = NDNApp(face=face, keychain=object())
 
     async def validator(name, sig):
         bad = face.invalid_next
         face.invalid_next = False
+        face.vlog.append((H.nb(name), bad))
+        d = vlat(H.nb(name), bad) if vlat is not None else 0
+        if d > 0:
+            await asyncio.sleep(d)
         return not bad
 
     async def main():
@@ -112,7 +119,13 @@ def stream_c(ctx):
         faults = {rng.choice(keys): rng.choice([H.NACKED, H.INVALID])} if rng.random() < 0.3 else None
         style = rng.choice(['exact', 'exact', 'all', 'absent', 'early', 'noncanon', 'only_early'])
         s = H.mk_scenario(rng, N, disc_k, style, H.fates_from(losses, faults), prefix_mode=rng.choice([0, 1]))
-        one_case(ctx, s, N, retry, rng.choice([4000, 500, 50]), rng.choice([True, False]), rng.choice(P.NACK_POOL), 'C.realapp')
+        lifetime = rng.choice([4000, 500, 50])
+        vspec = None
+        if rng.random() < 0.4:
+            # the caller's validator takes its time (relative to the lifetime of the fetch's Interests)
+            vspec = (rng.choice(['all', 'all', 'negative', 'positive', 'discovery', ('seg', rng.randrange(N))]),
+                     rng.choice(validator_latencies(lifetime)))
+        one_case(ctx, s, N, retry, lifetime, rng.choice([True, False]), rng.choice(P.NACK_POOL), 'C.realapp', vspec=vspec)
     # Nack table: every reason value / encoding x the key that is nacked (discovery, first, middle, last segment)
     # x the number of losses before the Nack (0, one below the limit): the fetch ends with InterestNack(that reason)
     # after the contents of the earlier segments, and the nacked Interest is not re-expressed
@@ -128,6 +141,7 @@ def stream_c(ctx):
                 one_case(ctx, s, N, retry, 100, True, form, 'C.nack-table')
 
 
+    validator_table(ctx)
     # unsegmented table: an unsegmented object published under EXACTLY the fetched name (the answer to the CanBePrefix
     # discovery Interest has the same name), one component below it, deeper; x shape of the fetched name x discovery
     # losses (0, retry-1: delivered; retry: timeout) x retry_times; through the real pending-Interest table
@@ -140,7 +154,87 @@ def stream_c(ctx):
                     one_case(ctx, s, s['nseg'], retry, 100, rng.choice([True, False]), 150, 'C.unsegmented-' + rel)
 
 
-def one_case(ctx, s, N, retry, lifetime, mbf, nack_form, stratum):
+def make_vlat(s, vspec):
+    """vspec = (who, latency_ms): whose verdict takes latency_ms of (virtual) time - 'all' packets, only those with a
+    'negative' / a 'positive' verdict, the answer to the 'discovery' Interest's name (the first packet validated), or
+    ('seg', i) the i-th segment.  Every other verdict is given at once."""
+    if vspec is None:
+        return None
+    who, ms = vspec
+    first = []
+
+    def vlat(name, bad):
+        is_first = not first
+        first.append(1)
+        if who == 'all':
+            hit = True
+        elif who == 'negative':
+            hit = bad
+        elif who == 'positive':
+            hit = not bad
+        elif who == 'discovery':
+            hit = is_first
+        else:
+            hit = name == s['base'] + [H.seg(who[1])]
+        return ms / 1000.0 if hit else 0
+    return vlat
+
+
+# Data reaches the application NET_DELAY_MS after the Interest was sent (ProducerFace.send)
+NET_DELAY_MS = 5
+
+
+def validator_latencies(lifetime):
+    """Latencies of the caller's validator relative to the Interest lifetime L of the fetch (ms): quick; half of L; just
+    inside / exactly / just beyond what remains of L when the Data arrives; L; beyond L; around the 100 ms mark; several
+    lifetimes."""
+    rem = lifetime - NET_DELAY_MS
+    return sorted({0, 3, lifetime // 2, rem - 1, rem, rem + 1, lifetime, lifetime + 50, 99, 101, 150, 2 * lifetime + 30,
+                   10 * lifetime})
+
+
+def validator_table(ctx):
+    """'validation failures ... propagate instead of being skipped' and 'fails with a timeout exactly when some segment
+    exhausts its attempts', whatever time the caller's validator needs for its verdict: the fate of an Interest is
+    decided by the packet that answered it (the legacy front-end gives the validator no deadline - finding
+    C05-v1-validator-no-deadline is about express_interest; here only what the fetch yields / raises is judged), so a
+    segment that was delivered and accepted is yielded, a delivered one the validator rejects ends the fetch with
+    ValidationFailure after the earlier contents, and no Interest whose answer arrived is expressed again."""
+    rng = ctx.rng
+    lifetimes = (50, 200, 1000) if not ctx.thorough else (50, 100, 200, 1000, 4000)
+    for lifetime in lifetimes:
+        for lat in validator_latencies(lifetime):
+            for retry in (1, 3):
+                N = 3
+                keys = [None] + list(range(N))
+                # (which key gets a negative verdict, whose verdict is slow)
+                shapes = [(None, 'all'), (None, 'discovery'), (None, ('seg', 1)), (None, ('seg', N - 1))]
+                for bad in (None, 1, N - 1):
+                    shapes += [((bad,), 'all'), ((bad,), 'negative')]
+                shapes += [((1,), 'positive'), ((N - 1,), ('seg', 0))]
+                for bad, who in shapes:
+                    losses = {k: 0 for k in keys}
+                    faults = None
+                    disc_k = rng.choice([0, 0, 1, 2])
+                    if bad is not None:
+                        faults = {bad[0]: H.INVALID}
+                        # the rejected segment is really asked for, sometimes after losses just below the limit
+                        if bad[0] is not None:
+                            disc_k = rng.choice([k for k in range(N) if k != bad[0]])
+                        losses[bad[0]] = rng.choice([0, retry - 1])
+                    elif rng.random() < 0.3:
+                        losses[rng.choice(keys)] = retry - 1
+                    s = H.mk_scenario(rng, N, disc_k, rng.choice(['exact', 'all']), H.fates_from(losses, faults), prefix_mode=0)
+                    one_case(ctx, s, N, retry, lifetime, rng.choice([True, False]), 150, 'C.validator-latency', vspec=(who, lat))
+        # unsegmented object, accepted / rejected, slow validator
+        for lat in validator_latencies(lifetime):
+            for bad in (False, True):
+                s = H.mk_scenario(rng, 0, None, 'exact', H.fates_from({None: 0}, {None: H.INVALID} if bad else None),
+                                  prefix_mode=0, whole_rel=rng.choice(H.WHOLE_RELS))
+                one_case(ctx, s, 0, rng.choice([1, 3]), lifetime, True, 150, 'C.validator-latency-unsegmented', vspec=('all', lat))
+
+
+def one_case(ctx, s, N, retry, lifetime, mbf, nack_form, stratum, vspec=None):
         M = ctx.call
         att = max(1, retry)
         if not s['prefix']:
@@ -160,12 +254,14 @@ def one_case(ctx, s, N, retry, lifetime, mbf, nack_form, stratum):
                 return ('exc', (2,), d)
             return r
         kw = {'retry_times': retry, 'timeout': lifetime, 'must_be_fresh': mbf}
-        trace, ending, elapsed, errors, pending, face = run_real(answer, s['prefix'], kw, nack_form)
+        trace, ending, elapsed, errors, pending, face = run_real(answer, s['prefix'], kw, nack_form, make_vlat(s, vspec))
         for t in trace:
             if t[0] == 'ask' and len(t[2]) == 3:
                 t[2] = t[2][:2]
         case = {'stream': 'real NDNApp', 'scenario': s, 'retry_times': retry, 'timeout': lifetime, 'must_be_fresh': mbf,
                 'nack': nack_form}
+        if vspec is not None:
+            case['validator'] = {'slow_on': vspec[0], 'latency_ms': vspec[1]}
         es = H.enc_scn(s)
         m = M([2, [retry, lifetime, int(mbf)], H.FUEL, es])
         mev, mend = H.norm(m[0]), H.dec_ending(m[1])
@@ -190,6 +286,14 @@ def one_case(ctx, s, N, retry, lifetime, mbf, nack_form, stratum):
                 if abs(dt - lifetime / 1000.0) > 0.002:
                     ctx.violation('segment_fetcher+NDNApp', 'retry-before-lifetime',
                                   f'Interest re-expressed {dt:.3f}s after a lost one, lifetime {lifetime} ms', case)
+        # the caller's validator is asked once about every packet that answered an Interest of the fetch
+        n_answered = sum(1 for t in asks if t[2][0] == 'data' or t[2][:2] == ('exc', (2,)))
+        if len(face.vlog) != n_answered:
+            ctx.violation('segment_fetcher+NDNApp', 'validator-calls', f'{n_answered} packets answered Interests of the fetch, '
+                          f'the caller\'s validator was asked {len(face.vlog)} times', case)
+        if vspec is not None:
+            ctx.stat('C.validator-latency:' + ('none' if vspec[1] == 0 else 'below-lifetime' if vspec[1] < lifetime - NET_DELAY_MS
+                                               else 'beyond-lifetime') + (':negative' if any(b for _, b in face.vlog) else ':positive'))
         if errors:
             ctx.violation('segment_fetcher+NDNApp', 'loop-exception', f'event loop handler called: {str(errors[0].get("message"))[:80]}', case)
         if pending:
